@@ -918,40 +918,75 @@ def render(consts, arms, guards, units, rules, dflt, roll=None, agg=None):
     if agg is not None: out += render_agg(*agg)
     return "\n".join(out)
 
+GROUPS = ["time", "roll", "agg", "map", "drv"]
+def _marker(g): return "(* ==== GROUP %s ==== *)" % g
+
+def _split_groups(text):
+    """the text of each group of an existing generated file (by the markers), {} if it has none"""
+    out, cur, buf = {}, None, []
+    for line in text.split("\n"):
+        m = re.match(r"\(\* ==== GROUP (\w+) ==== \*\)$", line)
+        if m:
+            if cur is not None: out[cur] = "\n".join(buf)
+            cur, buf = m.group(1), []
+        elif cur is not None:
+            buf.append(line)
+    if cur is not None: out[cur] = "\n".join(buf)
+    return out
+
 def main(argv):
+    """Every family group (time units / rolling min_periods shapes / aggregation-closure-map decisions / binning-generators-partition-
+    extrema / rolling drivers) is translated on its own.  A group whose source shape is not recognised keeps its last translatable text
+    (the file still compiles; the static tie of THAT group is unavailable) while the others are regenerated: exit 3 and a line
+    `gen_tables: UNAVAILABLE groups: a,b: reasons`; tools/driver.py escalates only the properties whose conformance files read such a
+    group.  Exit 2: nothing usable (no previous file to fall back on, or the time-unit group - which carries the file header - failed)."""
     repo = os.environ.get("TEVEC_REPO", "/repo")
-    try:
-        consts, arms, guards, units, rules, dflt = parse(repo)
-        if len(arms) == 0 or len(units) == 0: raise SystemExit("gen_tables: no arms / units recognised")
-        roll = parse_rolling(repo)
-        try:
-            agg = (parse_eps(repo), parse_agg(repo), parse_quantile(repo), parse_percentile(repo), parse_rolling_guards(repo), parse_map(repo))
-        except Unrecognised as e:
-            print("gen_tables: aggregation / closure / map families, shape not recognised: %s" % (e,)); return 2
-        text = render(consts, arms, guards, units, rules, dflt, roll, agg)
-        try:      # binning / generators / partition / rank / extrema kernels: tools/gen_tables_map.py (conformance: Proofs/SrcTablesMap*.v)
-            import gen_tables_map
-            text += "\n" + gen_tables_map.section(repo, sys.modules[__name__])
-        except Unrecognised as e:
-            print("gen_tables: binning / generator / partition / extrema families, shape not recognised: %s" % (e,)); return 2
-        import gen_tables_drv          # the rolling drivers (tools/gen_tables_drv.py; conformance: coq/Proofs/SrcTablesDrv.v)
-        try: text += "\n".join(gen_tables_drv.section(repo, Unrecognised))
-        except Unrecognised as e:
-            print("gen_tables: rolling drivers, shape not recognised: %s" % (e,)); return 2
-    except Unrecognised as e:
-        print("gen_tables: rolling family, shape not recognised: %s" % (e,)); return 2
-    except (OSError, ValueError, KeyError) as e:
-        print("gen_tables: cannot translate: %r" % (e,)); return 2
-    except SystemExit as e:
-        print(str(e)); return 2
     path = os.path.join(ROOT, "coq", "Gen", "SrcTables.v")
     old = open(path).read() if os.path.exists(path) else None
+    oldg = _split_groups(old) if old else {}
+    texts, failed, stats = {}, {}, {}
+    def attempt(g, f):
+        try:
+            texts[g] = f()
+        except Unrecognised as e:
+            failed[g] = str(e)
+        except (OSError, ValueError, KeyError, IndexError, AttributeError, TypeError) as e:
+            failed[g] = "cannot translate: %r" % (e,)
+        except SystemExit as e:
+            failed[g] = str(e)
+    def g_time():
+        consts, arms, guards, units, rules, dflt = parse(repo)
+        if len(arms) == 0 or len(units) == 0: raise Unrecognised("no arms / units recognised")
+        stats["time"] = "%d consts, %d arms, %d units, %d formats" % (len(consts), len(arms), len(units), len(rules))
+        return render(consts, arms, guards, units, rules, dflt, None, None)
+    def g_roll():
+        roll = parse_rolling(repo)
+        stats["roll"] = "%d rolling min_periods shapes" % len(roll[0])
+        return "\n".join(render_rolling(*roll))
+    def g_agg():
+        agg = (parse_eps(repo), parse_agg(repo), parse_quantile(repo), parse_percentile(repo), parse_rolling_guards(repo), parse_map(repo))
+        stats["agg"] = "%d aggregation guard lists, %d rolling emit guards, %d map functions" % (len(agg[1][0]), len(agg[4][0]), len(agg[5][0]))
+        return "\n".join(render_agg(*agg))
+    def g_map():
+        import gen_tables_map      # binning / generators / partition / rank / extrema kernels (conformance: Proofs/SrcTablesMap*.v)
+        return gen_tables_map.section(repo, sys.modules[__name__])
+    def g_drv():
+        import gen_tables_drv      # the rolling drivers (conformance: coq/Proofs/SrcTablesDrv.v)
+        return "\n".join(gen_tables_drv.section(repo, Unrecognised))
+    for g, f in zip(GROUPS, [g_time, g_roll, g_agg, g_map, g_drv]):
+        attempt(g, f)
+    for g in list(failed):
+        if g in oldg and g != "time": texts[g] = oldg[g]
+    if any(g not in texts for g in GROUPS):
+        print("gen_tables: shape not recognised and nothing to fall back on: %s" % "; ".join("%s: %s" % kv for kv in failed.items())); return 2
+    text = "\n".join(_marker(g) + "\n" + texts[g].strip("\n") for g in GROUPS) + "\n"
     if old != text:
         os.makedirs(os.path.dirname(path), exist_ok=True)
         open(path, "w").write(text)
-        print("gen_tables: coq/Gen/SrcTables.v regenerated (%d consts, %d arms, %d units, %d formats, %d rolling min_periods shapes; "
-              "%d aggregation guard lists, %d rolling emit guards, %d map functions)"
-              % (len(consts), len(arms), len(units), len(rules), len(roll[0]), len(agg[1][0]), len(agg[4][0]), len(agg[5][0])))
+        print("gen_tables: coq/Gen/SrcTables.v regenerated (%s)" % "; ".join(stats.get(g, g) for g in GROUPS if g not in failed))
+    if failed:
+        print("gen_tables: UNAVAILABLE groups: %s: %s" % (",".join(sorted(failed)), "; ".join("%s: %s" % kv for kv in sorted(failed.items()))))
+        return 3
     return 0
 
 if __name__ == "__main__":
